@@ -37,6 +37,9 @@ structure Facts where
   buildPathCallersOK : Bool
   scratchPooledAndCleared : Bool
   rollbackOnFailedBuild : Bool
+  /-- createStructDesc / newStructDescAndPrefetch / prefetchSubStructDesc / fetchStructDesc /
+      rollbackBuild consist of exactly the statements `BuildCache.lean` models, in that order -/
+  buildProtocol : Bool
   -- C18
   hotPathHeapSites : Nat
   hotPathHeapSiteList : List String
